@@ -1,6 +1,7 @@
 import HpackVerif.Props.Common
 import HpackVerif.Props.C03
 import HpackVerif.Proofs.Witness
+import HpackVerif.Proofs.Events
 /-! # C09 — the Encoder signals every table-size change at the start of its next block
 
 `setSizes e vs` = the application assigns `Encoder.header_table_size` the values `vs` in turn;
@@ -145,11 +146,47 @@ theorem full_statement_false : ¬ NoneExceeds := by
   rw [hm] at this
   omega
 
+/-- **a size assignment made while a block is being encoded** (the application's header generator runs
+    `encoder.header_table_size = n` between two of the fields it yields): the block itself carries only what was
+    pending when `encode` was called; if the assignment changes the size, then when `encode` returns the update is
+    owed and `[n]` is exactly what is pending — the *next* block opens with it. An assignment of the size already in
+    force at that moment leaves nothing pending. -/
+theorem assignment_during_block (e : EncState) (h : Props.EncReach e) (fs1 fs2 : List FieldForm) (n : Nat) (huff : Bool)
+    (b : Bytes) (e' : EncState)
+    (hrun : e.encodeEvents true true (fs1.map .field ++ .setSize n :: fs2.map .field) huff = .ok (b, e')) :
+    ∃ size_then : Nat,
+      (n ≠ size_then → e'.table.resized = true ∧ e'.changes = [n]) ∧
+      (n = size_then → e'.table.resized = false ∧ e'.changes = []) := by
+  have hok := Props.encReach_ok h
+  unfold EncState.encodeEvents at hrun
+  by_cases hr : e.table.resized = true
+  · simp only [hr, if_true] at hrun
+    obtain ⟨e1, b1, _, h1, h2⟩ := Impl.assignment_during_block true huff _ e' _ b fs1 fs2 n hrun
+    exact ⟨e1.table.maxsize, fun hne => by simpa using h1 hne, fun heq => by simpa using h2 heq⟩
+  · have hr' : e.table.resized = false := by simpa using hr
+    have hch : e.changes = [] := by
+      by_contra hne
+      have := hok.flag.mpr hne
+      rw [hr'] at this; cases this
+    simp only [hr', Bool.false_eq_true, if_false] at hrun
+    obtain ⟨e1, b1, _, h1, h2⟩ := Impl.assignment_during_block true huff e e' [] b fs1 fs2 n hrun
+    exact ⟨e1.table.maxsize, fun hne => by simpa [hch] using h1 hne, fun heq => by simpa [hch, hr'] using h2 heq⟩
+
+/-- a generator that assigns nothing is just the list of the fields it yields -/
+theorem events_without_assignment (e : EncState) (fs : List FieldForm) (huff : Bool) :
+    e.encodeEvents true true (fs.map .field) huff = e.encodeForms true (.iterable fs) huff :=
+  Impl.events_without_assignment true true huff e fs
+
 /-- before the repair D3 an assignment of the same value twice lost the update altogether -/
 theorem lost_update_before_fix : Witness.setTwice = some ([0x40, 0x01, 0x61, 0x01, 0x62], 1, 40) :=
   Witness.c09_lost_update_witness
 
 /-! non-vacuity -/
 example : Props.EncReach Props.freshEnc := ⟨[], rfl⟩
+example : (match Props.freshEnc.encodeEvents true true
+    ([FieldForm.tuple2 (.bytes [0x61]) (.bytes [0x62])].map .field ++ .setSize 64 :: [FieldForm.tuple2 (.bytes [0x63]) (.bytes [0x64])].map .field) false with
+    | .ok (b, e') => decide (b = [0x40, 1, 0x61, 1, 0x62, 0x40, 1, 0x63, 1, 0x64]) && decide (e'.changes = [64]) && e'.table.resized
+    | _ => false) = true := by
+  decide +kernel
 
 end Props.C09
